@@ -155,7 +155,17 @@ func (fan *FileFan) Supports(feature FeatureFlag) bool {
 	case FeatureControlMode:
 		return false
 	case FeaturePwmSensor:
-		_, err := util.ReadIntFromFile(fan.Config.File.Path)
+		filePath := fan.Config.File.Path
+		// resolve home dir path
+		if strings.HasPrefix(filePath, "~") {
+			currentUser, err := user.Current()
+			if err != nil {
+				return false
+			}
+
+			filePath = filepath.Join(currentUser.HomeDir, filePath[1:])
+		}
+		_, err := util.ReadIntFromFile(filePath)
 		return err == nil
 	case FeatureRpmSensor:
 		if len(fan.Config.File.RpmPath) > 0 {
